@@ -51,7 +51,7 @@ var c07Shapes = []c07Shape{
 
 // filters over $x (and $y where the shape has it); `%s` is the variable name
 var c07VarFilters = []string{
-	`m["%s"].Type.Is("int")`, `m["%s"].Type.Is("[]$t")`, `m["%s"].Type.Underlying().Is("struct{$*_}")`,
+	`m["%s"].Type.Is("int")`, `m["%s"].Type.Is("[]$t")`, `m["%s"].Type.Is("errors.error")`, `m["%s"].Type.Is("[]io.error")`, `m["%s"].Type.Is("func() fmt.string")`, `m["%s"].Type.Underlying().Is("io.any")`, `m["%s"].Type.Underlying().Is("struct{$*_}")`,
 	`m["%s"].Type.ConvertibleTo("int")`, `m["%s"].Type.AssignableTo("interface{}")`, `m["%s"].Type.Implements("error")`,
 	`m["%s"].Type.HasMethod("io.Reader.Read")`, `m["%s"].Type.HasPointers()`,
 	`m["%s"].Type.OfKind("integer")`, `m["%s"].Type.OfKind("untyped")`, `m["%s"].Type.OfKind("int")`, `m["%s"].Type.OfKind("signed")`, `m["%s"].Type.Underlying().OfKind("numeric")`,
